@@ -190,6 +190,8 @@ fn eval_union_expr(
         };
     }
 
+    // a union is a node-set: document order, no duplicates
+    nodes.sort_by_cached_key(|v| v.order());
     let mut set = HashSet::new();
     nodes.retain(|v| set.insert(v.order()));
 
